@@ -116,6 +116,9 @@ func (t *template) layout(ctx context.Context, w io.Writer) error {
 	maxDepth := 100
 	depth := 0
 	var inheritedSlotScope *SlotScope // Slots defined in child templates (as DOM nodes)
+	// A layout's own layout comes from its front-matter alone: a file seen twice repeats forever.
+	// (Waiting for the depth limit is not an option: each lap may multiply the content.)
+	visited := map[string]bool{}
 
 	// Build layout chain and render intermediate templates
 	for {
@@ -123,6 +126,13 @@ func (t *template) layout(ctx context.Context, w io.Writer) error {
 			return fmt.Errorf("layout chain depth exceeded maximum of %d, possible circular dependency", maxDepth)
 		}
 		depth++
+		// (the page itself does not count: it may be rendered inside a layout of its own name, once)
+		if !isFirstTemplate {
+			if visited[filename] {
+				return fmt.Errorf("layout chain depth exceeded maximum of %d, circular dependency: %s is reached a second time", maxDepth, filename)
+			}
+			visited[filename] = true
+		}
 
 		// Create a fresh buffer for each iteration
 		buf := new(bytes.Buffer)
